@@ -80,11 +80,6 @@ private def decRow (s : String) : Option Row :=
     some ⟨a, i⟩
   | _ => none
 
-private def sortedRows : List Row → Bool
-  | [] => true
-  | [_] => true
-  | a :: b :: r => a.pos < b.pos && sortedRows (b :: r)
-
 private def encGen (g : GenObs) : String :=
   s!"{encBool g.isStd}:{g.offFrom}:{g.offTo}:{encStr g.name}:{g.dtstart}:{encInts g.rdates}"
 
